@@ -23,7 +23,7 @@ Set Implicit Arguments.
 Definition tail_slices (oidx : list nat) : list nix := map (fun o => NSlice [o]) oidx.
 Definition singles (oidx : list nat) : list (list nat) := map (fun o => [o]) oidx.
 
-Lemma norm_order_slice o : norm_ix (o + 1) (order_slice o) = IOk (NSlice [o]).
+Lemma norm_order_slice b o : norm_ix b (o + 1) (order_slice o) = IOk (NSlice [o]).
 Proof.
   unfold order_slice, norm_ix, slice_positions, clip.
   assert ((Z.of_nat o <? 0)%Z = false) as -> by (apply Z.ltb_ge; lia).
@@ -35,20 +35,20 @@ Proof.
   change (Z.to_nat 1) with 1. cbn [seq map]. do 3 f_equal. lia.
 Qed.
 
-Lemma norm_all_tail fs : forall fitem oidx,
+Lemma norm_all_tail b fs : forall fitem oidx,
   length fitem = length fs ->
-  norm_all (fs ++ map (fun n => n + 1) oidx) (fitem ++ map order_slice oidx) =
-  match norm_all fs fitem with
+  norm_all b (fs ++ map (fun n => n + 1) oidx) (fitem ++ map order_slice oidx) =
+  match norm_all b fs fitem with
   | IOk A => IOk (A ++ tail_slices oidx)
   | IErr e => IErr e
   end.
 Proof.
   induction fs as [|d fs IH]; intros [|i fitem] oidx L; try discriminate.
-  - change (norm_all [] []) with (IOk (@nil nix)). cbn [app]. clear.
+  - change (norm_all b [] []) with (IOk (@nil nix)). cbn [app]. clear.
     induction oidx as [|o r IHr]; [reflexivity|].
     cbn [map norm_all]. rewrite norm_order_slice, IHr. reflexivity.
-  - cbn. destruct (norm_ix d i); auto. rewrite IH by (cbn in L; lia).
-    destruct (norm_all fs fitem); auto.
+  - cbn [app norm_all]. destruct (norm_ix b d i); auto. rewrite IH by (cbn in L; lia).
+    destruct (norm_all b fs fitem); auto.
 Qed.
 
 Lemma bcast_len_tail A oidx acc : bcast_len (A ++ tail_slices oidx) acc = bcast_len A acc.
@@ -222,6 +222,24 @@ Proof.
       now apply cart_length.
 Qed.
 
+Lemma basic_error_tail fs : forall fitem oidx,
+  length fitem = length fs ->
+  basic_error (fs ++ map (fun n => n + 1) oidx) (fitem ++ map order_slice oidx) = basic_error fs fitem.
+Proof.
+  induction fs as [|d fs IH]; intros [|i fitem] oidx L; try discriminate.
+  - cbn [app basic_error]. clear. induction oidx as [|o r IHr]; [reflexivity|].
+    cbn [map basic_error]. unfold order_slice at 1. fold (order_slice o).
+    rewrite norm_order_slice. exact IHr.
+  - cbn [app basic_error]. rewrite IH by (cbn in L; lia). reflexivity.
+Qed.
+
+Lemma raw_bcast_tail item oidx acc : raw_bcast (item ++ map order_slice oidx) acc = raw_bcast item acc.
+Proof.
+  revert acc. induction item as [|[z|l|a b c] item IH]; intros acc; cbn; auto.
+  - induction oidx; cbn; auto.
+  - destruct acc as [a|]; auto. destruct (bc a (length l)); auto.
+Qed.
+
 Lemma np_index_tail fs item oidx vshape poss :
   length item = length fs ->
   np_index fs item = IOk (vshape, poss) ->
@@ -230,8 +248,10 @@ Lemma np_index_tail fs item oidx vshape poss :
 Proof.
   intros L. unfold np_index.
   rewrite !app_length, !map_length, L, !Nat.ltb_irrefl, !Nat.sub_diag. cbn [repeat].
-  rewrite !app_nil_r, norm_all_tail by auto.
-  destruct (norm_all fs item) as [A|e]; [|discriminate].
+  rewrite !app_nil_r, norm_all_tail, basic_error_tail by auto.
+  unfold lenient_item. rewrite raw_bcast_tail. fold (lenient_item item).
+  destruct (basic_error fs item); [discriminate|].
+  destruct (norm_all (lenient_item item) fs item) as [A|e]; [|discriminate].
   rewrite np_index_n_tail. intros ->. reflexivity.
 Qed.
 
